@@ -1074,7 +1074,12 @@ def finalize_case(case, rng, nprng, P):
     # dtype variety (C01/C09 switch it on with P["dtype_p"]): narrow, unsigned and boolean inputs for operations whose meaning does not depend on it
     if case.note.get("dtype_p", 0.0) > 0 and rng.random() < case.note["dtype_p"] and case.family in ("elementwise", "reduce", "dot", "get_at", "preserve", "id") \
             and case.op not in ("true_divide", "floor_divide", "divide", "logaddexp", "logsumexp", "softmax", "log_softmax", "mean", "var", "std", "where", "prod"):
-        pool_dt = ["float32", "int32", "uint8", "int64", "float64", "int16", "uint16"] + (["bool"] if case.op not in ("subtract", "dot", "sort", "argsort", "negative") else [])
+        if case.family in ("reduce", "dot"):
+            # accumulating operations: numpy's accumulator width differs between np.sum (promotes small integers) and np.einsum / matmul (keeps the
+            # input dtype and wraps), and R accumulates in float64: only dtypes that hold every partial result exactly
+            pool_dt = ["float32", "int32", "int64", "float64"] + (["bool"] if case.op not in ("dot",) else [])
+        else:
+            pool_dt = ["float32", "int32", "uint8", "int64", "float64", "int16", "uint16"] + (["bool"] if case.op not in ("subtract", "dot", "sort", "argsort", "negative") else [])
         for i, t in enumerate(tensors):
             if case.family == "get_at" and i >= 1:
                 continue  # coordinates stay integer indices
